@@ -460,6 +460,52 @@ def lossless_restore_rule(chk, src):
     return n
 
 
+
+# ------------------------------------------------------------------------------------------ spill of large site tensors to disk
+def spill_rule(chk, src):
+    """MatrixProduct keeps site tensors above a size limit as .npy files: writer, reader and cleanup must agree on where the file of (object, site) lives,
+    the reader must rebuild the same Matrix (dtype, sigmaqn of that site), and what is saved is the tensor itself"""
+    a2 = src.func(MP, "MatrixProduct._array2mt")
+    gi = src.func(MP, "MatrixProduct.__getitem__")
+    si = src.func(MP, "MatrixProduct.__setitem__")
+    de = src.func(MP, "MatrixProduct.__del__")
+
+    def dirs(fi):
+        return sorted({unparse(st.value).replace(" ", "") for st in ast.walk(fi.node) if isinstance(st, ast.Assign) and isinstance(st.value, ast.Call)
+                       and unparse(st.value.func) == "os.path.join" and "id(self)" in unparse(st.value)})
+    d1, d2 = dirs(a2), dirs(de)
+    chk.ob("spill-protocol", "writer and cleanup use the same per-object directory", d1 == d2 and len(d1) == 1 and "id(self)" in d1[0] and "dump_matrix_dir" in d1[0], a2.where,
+           {"_array2mt": d1, "__del__": d2}, "os.path.join(self.compress_config.dump_matrix_dir, str(id(self))) in both", line=a2.node.lineno,
+           detail="two live objects must never share a spill directory (id(self)), and the directory removed when an object dies must be its own")
+    idx = a2.params()[2]
+    names = [unparse(st.value).replace(" ", "") for st in ast.walk(a2.node) if isinstance(st, ast.Assign) and unparse(st.targets[0]) == "dump_name"]
+    dirname = [unparse(st.targets[0]) for st in ast.walk(a2.node) if isinstance(st, ast.Assign) and isinstance(st.value, ast.Call) and unparse(st.value.func) == "os.path.join" and "id(self)" in unparse(st.value)]
+    dn = ast.parse(names[0], mode="eval").body if len(names) == 1 else None
+    used = {x.id for x in ast.walk(dn) if isinstance(x, ast.Name)} - {"os", "str"} if dn is not None else set()
+    chk.ob("spill-protocol", "one file per site inside that directory", len(names) == 1 and used == set(dirname[:1]) | {idx}, a2.where, names, f"os.path.join(dir_with_id, f'{{{idx}}}.npy')", line=a2.node.lineno,
+           detail="the file name must be a function of the site index only: two sites sharing a file silently overwrite each other")
+    saves = [c for c in ast.walk(a2.node) if isinstance(c, ast.Call) and unparse(c.func) == "np.save"]
+    arr_defs = [unparse(st.value).replace(" ", "") for st in ast.walk(a2.node) if isinstance(st, ast.Assign) and unparse(st.targets[0]) == "array"]
+    ok = len(saves) == 1 and [unparse(x) for x in saves[0].args] == ["dump_name", "array"] and set(arr_defs) <= {"mt.array", "np.ascontiguousarray(array)"} and "mt.array" in arr_defs
+    chk.ob("spill-protocol", "the file holds the tensor itself (at most made contiguous)", ok, a2.where, {"save": [unparse(c) for c in saves], "array": arr_defs}, "np.save(dump_name, mt.array)", line=a2.node.lineno)
+    rets = [unparse(r.value) for r in ast.walk(a2.node) if isinstance(r, ast.Return)]
+    chk.ob("spill-protocol", "a spilled tensor is represented by its file name", sorted(rets) == ["dump_name", "mt"], a2.where, rets, ["dump_name", "mt"], line=a2.node.lineno)
+    # reader
+    item = gi.params()[1]
+    loads = [unparse(st.value).replace(" ", "") for st in ast.walk(gi.node) if isinstance(st, ast.Assign) and "np.load" in unparse(st.value)]
+    sq = [unparse(st.value).replace(" ", "") for st in ast.walk(gi.node) if isinstance(st, ast.Assign) and unparse(st.targets[0]).endswith(".sigmaqn")]
+    okr = len(loads) == 1 and loads[0].startswith("Matrix(np.load(") and "dtype=self.dtype" in loads[0] and sq == [f"self._get_sigmaqn({item})"]
+    chk.ob("spill-protocol", "reader rebuilds the Matrix with the object's dtype and the site's sigmaqn", okr, gi.where, {"load": loads, "sigmaqn": sq},
+           {"load": "Matrix(np.load(<stored name>), dtype=self.dtype)", "sigmaqn": f"self._get_sigmaqn({item})"}, line=gi.node.lineno,
+           detail="a reloaded site tensor must be indistinguishable from one kept in memory (same dtype conversion as _array2mt, quantum numbers of the same site)")
+    rm = [unparse(c).replace(" ", "") for c in ast.walk(si.node) if isinstance(c, ast.Call) and unparse(c.func) == "os.remove"]
+    st_ = [unparse(x).replace(" ", "") for x in ast.walk(si.node) if isinstance(x, ast.Assign) and isinstance(x.targets[0], ast.Subscript)]
+    key = si.params()[1]
+    chk.ob("spill-protocol", "replacing a site converts the new tensor through _array2mt with the same index", st_ == [f"self._mp[{key}]=new_mt"] and
+           any(unparse(x.value).replace(" ", "") == f"self._array2mt({si.params()[2]},{key})" for x in ast.walk(si.node) if isinstance(x, ast.Assign)), si.where, {"store": st_, "remove": rm},
+           f"new_mt = self._array2mt(array, {key}); self._mp[{key}] = new_mt", line=si.node.lineno)
+
+
 def run(chk):
     src = chk.src
     chk.explanation = (
@@ -482,6 +528,8 @@ def run(chk):
              "file exists after every file-system effect of dump_dict (exhaustive)", 3)
     chk.rule("lossless-restore", "numerical content read from the archive is restored without narrowing conversions", 10)
     lossless_restore_rule(chk, src)
+    chk.rule("spill-protocol", "disk spill of large site tensors: writer / reader / cleanup agree, content and metadata preserved", 6)
+    spill_rule(chk, src)
     chk.rule("dump-completes", "normal completion of dump_dict leaves the primary result file complete", 1)
 
     io = IO(src, chk)
